@@ -125,6 +125,6 @@ def plan(tier):
 
 
 REQUIRED_CLASSES = {
-    "quick": ["fam:" + f for f in P.FAMILY_WEIGHTS] + ["zero-axis", "shared-variable"],
-    "thorough": ["fam:" + f for f in P.FAMILY_WEIGHTS] + ["zero-axis", "shared-variable"],
+    "quick": ["fam:" + f for f, w in P.FAMILY_WEIGHTS.items() if w > 0] + ["zero-axis", "shared-variable"],
+    "thorough": ["fam:" + f for f, w in P.FAMILY_WEIGHTS.items() if w > 0] + ["zero-axis", "shared-variable"],
 }
